@@ -206,7 +206,8 @@ pub fn spaces(tier: Tier) -> Vec<Space> {
         }
         let nt = tops.len() as u64;
         let nv = vals.len() as u64;
-        let third = 8u64;
+        // third-from-top item: V4 in the quick tier, V8 in the thorough tier (a case costs ~0.4 ms because the interpreter prints every state)
+        let third = if thorough { 8u64 } else { 4u64 };
         let shapes = 1 + nt + nt * nv + nt * nv * third;
         v.push(Space::new("op-on-stacks", no * shapes, move |case, acc| {
             let c = coords(case.idx, &[no, shapes]);
@@ -239,7 +240,17 @@ pub fn spaces(tier: Tier) -> Vec<Space> {
     // (a+) extreme script numbers (see C14 `extreme_numbers`): every ordered pair under every opcode byte of the arithmetic /
     // comparison / bitwise / splice range 0x7e..=0xa5, and every value alone under every accepted opcode byte
     {
-        let ext: Arc<Vec<Vec<u8>>> = Arc::new(c14::extreme_numbers(thorough).iter().map(crate::refs::interp::enc).collect());
+        // quick tier: the values around 7/8, 15/16, 31/32, 63/64 and 127/128 bits (the semantic check C14 runs the full list)
+        let ext: Arc<Vec<Vec<u8>>> = Arc::new(
+            c14::extreme_numbers(thorough)
+                .iter()
+                .filter(|x| thorough || {
+                    let b = x.magnitude().bits();
+                    b <= 4 || [7u64, 8, 9, 15, 16, 17, 31, 32, 33, 63, 64, 65, 127, 128, 129].contains(&b)
+                })
+                .map(crate::refs::interp::enc)
+                .collect(),
+        );
         let ne = ext.len() as u64;
         let range: Vec<u8> = ops.iter().copied().filter(|b| (0x7e..=0xa5).contains(b)).collect();
         let nr = range.len() as u64;
